@@ -149,3 +149,56 @@ Example reject_example :
     (SFunctionDef "f" 1%Z (mkArgs [] [] None [] [] None [])
        [SWhile (Name "c") [SIf (Name "d") [SPass; SUnsupported "Try"] []] []] []) = true.
 Proof. reflexivity. Qed.
+
+(* C08: a starred element in the target pattern of a comprehension clause (so, in particular, TWO of them) is refused. *)
+Fixpoint star_in_target (t : expr) : bool :=
+  match t with
+  | Starred _ => true
+  | ETuple l | EList l => existsb star_in_target l
+  | _ => false
+  end.
+
+Lemma target_names_go_star : forall l,
+  Forall (fun t => star_in_target t = true -> failed (target_names t)) l ->
+  existsb star_in_target l = true ->
+  failed ((fix go (l : list expr) : res (list ident) :=
+             match l with
+             | [] => ret []
+             | x :: r => let! a := target_names x in let! b := go r in ret (a ++ b)
+             end) l).
+Proof.
+  induction l as [|x r IH]; intros HF He; [discriminate|].
+  inversion HF as [|? ? Hx Hr]; subst. cbn [existsb] in He.
+  destruct (star_in_target x) eqn:Ex.
+  - apply rbind_failed. apply Hx. reflexivity.
+  - cbn [orb] in He. destruct (target_names x) as [a|e]; [|exists e; reflexivity]. cbn [rbind].
+    apply rbind_failed. exact (IH Hr He).
+Qed.
+
+Lemma target_names_star : forall t, star_in_target t = true -> failed (target_names t).
+Proof.
+  induction t using expr_ind'; intros Hs; try discriminate Hs.
+  - (* Starred *) exists ERuntime. reflexivity.
+  - (* EList *) cbn [target_names star_in_target] in *. exact (target_names_go_star l H Hs).
+  - (* ETuple *) cbn [target_names star_in_target] in *. exact (target_names_go_star l H Hs).
+Qed.
+
+Definition clause_star (g : comprehension) : bool := match g with (t, _, _, _) => star_in_target t end.
+
+Lemma gen_names_star : forall gs, existsb clause_star gs = true -> failed (gen_names gs).
+Proof.
+  induction gs as [|[[[t i] ifs] a] r IH]; intros He; [discriminate|]. cbn [gen_names existsb clause_star] in *.
+  destruct a; [exists ERuntime; reflexivity|].
+  destruct (star_in_target t) eqn:Et.
+  - apply rbind_failed. apply target_names_star. exact Et.
+  - cbn [orb] in He. destruct (target_names t) as [x|e]; [|exists e; reflexivity]. cbn [rbind].
+    apply rbind_failed. exact (IH He).
+Qed.
+
+Theorem starred_comprehension_target_rejected : forall n bd inn x k v gs, existsb clause_star gs = true ->
+  failed (transf n bd inn (ListComp x gs)) /\ failed (transf n bd inn (SetComp x gs)) /\
+  failed (transf n bd inn (GeneratorExp x gs)) /\ failed (transf n bd inn (DictComp k v gs)).
+Proof.
+  intros n bd inn x k v gs H. pose proof (gen_names_star gs H) as F.
+  repeat split; cbn [transf]; apply rbind_failed; exact F.
+Qed.
